@@ -44,12 +44,13 @@ def gen_steps(res):
     src = C.read(os.path.join(C.REPO, "src", "braille.rs"))
     codes, info = {}, {}
     for code, (fn, tab) in PROOF_CODES.items():
-        codes[code] = G.steps_of(src, fn, tab)
+        codes[code] = C.translate(res, "c06-" + code, "clean-up chain %s of braille.rs" % fn, lambda: G.steps_of(src, fn, tab))
         info[code] = {"steps": len(codes[code]), "opaque": [s[0] for s in codes[code] if s[1] is None]}
     body = G.render(codes)
     # the final substitution of every code with a table, and the digit cells
     for code, tab in TABLE_CODES.items():
-        st = [s for s in G.steps_of(src, CLEANUPS[code], tab) if s[0].startswith("REPLACE_INDICATORS")]
+        st = [s for s in C.translate(res, "c06-final-" + code, "final substitution of %s" % CLEANUPS[code], lambda: G.steps_of(src, CLEANUPS[code], tab))
+              if s[0].startswith("REPLACE_INDICATORS")]
         if len(st) != 1:
             raise RuntimeError("REPLACE_INDICATORS step of %s not found" % code)
         alts = st[0][1]
